@@ -430,15 +430,7 @@ MUTANTS = [
     M("chunk size computed by floor division", [(F_QUAN, "                    self.quantitative_features,\n                )\n        # storing into the values_orders", "                    self.quantitative_features,\n                    chunksize=len(self.quantitative_features) // self.n_jobs,\n                )\n        # storing into the values_orders")], "R-pool-args"),
     M("D23-reverted: select on an empty condition list", [(F_QUAL, "                if len(values_to_group) > 0:\n                    x_copy[feature] = select(df_to_input, groups_value, default=x_copy[feature])\n", "                x_copy[feature] = select(df_to_input, groups_value, default=x_copy[feature])\n")], "R-select-nonempty", "ChainedDiscretizer.fit"),
     M("transform selects without the emptiness guard", [(F_BASE, "    if len(values_to_group) > 0:\n        df_feature = select(values_to_group, group_labels, default=df_feature)", "    df_feature = select(values_to_group, group_labels, default=df_feature)")], "R-select-nonempty", "transform_quantitative_feature"),
-    M("D27-reverted: inner BaseDiscretizer built with hard-coded sentinels", [("AutoCarver/discretizers/discretizers.py", "            str_nan=self.str_nan,
-            str_default=self.str_default,
-            n_jobs=self.n_jobs,
-        )
-        x_copy = base_discretizer.fit_transform(x_copy, y)", "            str_nan="__NAN__",
-            str_default="__OTHER__",
-            n_jobs=self.n_jobs,
-        )
-        x_copy = base_discretizer.fit_transform(x_copy, y)")], "R-forward-sentinels", "BaseDiscretizer", quick=True),
+    M("D27-reverted: inner BaseDiscretizer built with hard-coded sentinels", [("AutoCarver/discretizers/discretizers.py", "            str_nan=self.str_nan,\n            str_default=self.str_default,\n            n_jobs=self.n_jobs,\n        )\n        x_copy = base_discretizer.fit_transform(x_copy, y)", "            str_nan=\"__NAN__\",\n            str_default=\"__OTHER__\",\n            n_jobs=self.n_jobs,\n        )\n        x_copy = base_discretizer.fit_transform(x_copy, y)")], "R-forward-sentinels", "BaseDiscretizer", quick=True),
     M("str_nan not forwarded to the OrdinalDiscretizer that merges rare quantiles", [(F_DISC, "                values_orders=self.values_orders,\n                str_nan=self.str_nan,\n                copy=False,\n                verbose=self.verbose,\n                input_dtypes=self.input_dtypes,", "                values_orders=self.values_orders,\n                copy=False,\n                verbose=self.verbose,\n                input_dtypes=self.input_dtypes,")], "R-forward-sentinels", "OrdinalDiscretizer"),
     M("continuous aggregate without fill value", [(F_CONT, "yval = yval.reindex(labels_orders[feature], fill_value=[])", "yval = yval.reindex(labels_orders[feature])")], "R-aggregate-fill", "ContinuousCarver"),
     M("recursion keeps the frequent values", [(F_QUAN, "df_feature[(sub_indices == i) & (~in1d(df_feature, frequent_values))], q, len_df, []", "df_feature[(sub_indices == i)], q, len_df, []")], "R-quantile-progress"),
